@@ -435,6 +435,10 @@ class StmtMixin(object):
         self.frame.continue_label = saved_cont
 
     def symbolic_loop(self, n, var, init_val, cond_n, inc_n, body_n):
+        g0 = Ghost('loop%s.before' % n.get('_ord'))
+        g0.ns = self.namespace()
+        g0.fname = self.frame.fname
+        self.emit(g0)
         cvar = self.new_scalar(var, INT)
         self.assign(cvar.lv(), init_val)
         self.bind(var, cvar)
